@@ -1,5 +1,6 @@
 import QR.Proofs.Segmentation
 import QR.Proofs.Pinned
+import QR.Proofs.SourceTieD1b
 /-
 C10 - segmentation is lossless, uses valid and most-compact modes, honours the optimize threshold.
 `Model.addData` mirrors QRCode.add_data / util.optimal_data_chunks / _optimal_split with the four regular expressions as
@@ -56,6 +57,80 @@ theorem C10_zero_single (d : Bytes) : addData d 0 = [{ mode := optimalMode d, da
 /-- non-vacuity (tests of the statement on concrete data): "AB1234567cd" with threshold 4 -/
 example : addData [65, 66, 49, 50, 51, 52, 53, 54, 55, 99, 100] 4 =
     [⟨4, [65, 66]⟩, ⟨1, [49, 50, 51, 52, 53, 54, 55]⟩, ⟨4, [99, 100]⟩] := by decide
+
+/-! ### tie to the source (translator T2, plugin `frag_d1.py`): the segmentation code as it stands in /repo, translated
+statement by statement into `QR.Gen.Code.sg_*`, equals the Model.  `pyModel F enc` is the interpreter record of the Model:
+its regex engine `searchModel` / `matchModel` (the ASSUMPTION on `re` stated in Model/Segment.lean, now a value), its two
+exceptions, arguments that are `bytes`, `F d` iterations granted to `while data:` started on `d`. -/
+section SourceTieD1
+open QR.Gen.Code QR.SourceTieD1
+
+/-- `util.MODE_NUMBER / MODE_ALPHA_NUM / MODE_8BIT_BYTE`, `ALPHA_NUM`, `RE_ALPHA_NUM = compile(b"^[" + re.escape(ALPHA_NUM) + rb"]*\Z")`
+    and the defaults `minimum=4`, `optimize=20`, as read from the AST, are the Model's tables -/
+theorem C10_source_consts : sg_MODE_NUMBER = Gen.MODE_NUMBER ∧ sg_MODE_ALPHA_NUM = Gen.MODE_ALPHA_NUM ∧
+    sg_MODE_8BIT_BYTE = Gen.MODE_8BIT_BYTE ∧ sg_ALPHA_NUM = Gen.ALPHA_NUM ∧
+    sg_RE_ALPHA_NUM = .anchoredStarZ (.set Gen.ALPHA_NUM) ∧
+    sg_optimal_data_chunks_default_minimum = 4 ∧ sg_add_data_default_optimize = 20 :=
+  QR.SourceTieD1.consts_src
+
+/-- `util.to_bytestring(data)` returns a `bytes` argument unchanged (the Model's functions take the bytes themselves) -/
+theorem C10_source_toBytestring {ε : Type} (py : sg_Py ε) (data : List Nat) (hb : py.isinstance_bytes data = true) :
+    sg_to_bytestring py data = data :=
+  QR.SourceTieD1.toBytestring_src py data hb
+
+/-- **`util.optimal_mode`** (`data.isdigit()`, `RE_ALPHA_NUM.match(data)`, the three returns) = `Model.optimalMode`,
+    for every byte string -/
+theorem C10_source_optimalMode (fuel enc) (data : Bytes) :
+    optimalMode data = sg_optimal_mode (pyModel fuel enc) data :=
+  QR.SourceTieD1.optimalMode_src fuel enc data
+
+/-- **`QRData.__init__(data, mode, check_data)`** on a byte string (the `to_bytestring` call, `mode is None`, the `not in`
+    TypeError, the `check_data and mode < optimal_mode(data)` ValueError, the two attributes) = `Model.mkQRData`:
+    same object, same exception, for all arguments -/
+theorem C10_source_mkQRData (fuel enc) (data : Bytes) (mode : Option Nat) (checkData : Bool) :
+    sg_qrdata_init (pyModel fuel enc) data mode checkData = (mkQRData data mode checkData).map segQ :=
+  QR.SourceTieD1.mkQRData_src fuel enc data mode checkData
+
+/-- **`util._optimal_split(data, compile(C{n,}))`** (the `while data:` loop, `re.search`, `break`, the three yields, the slices)
+    = `Model.splitRuns`, for every class, threshold, fuel and byte string -/
+theorem C10_source_splitRuns (enc) (c : sg_Cls) (n : Nat) (fuel : Nat) (data : List Nat) :
+    splitRuns (clsPred c) n fuel data = sg_optimal_split (pyModel (fun _ => fuel) enc) data (.atLeast c n) :=
+  QR.SourceTieD1.splitRuns_src enc c n fuel data
+
+/-- **`util._optimal_split(data, compile(^C+$))`** = `Model.splitAnchored`, as soon as one iteration is granted -/
+theorem C10_source_splitAnchored (enc) (c : sg_Cls) (fuel : Nat) (hfuel : 1 ≤ fuel) (data : List Nat) :
+    splitAnchored (clsPred c) data = sg_optimal_split (pyModel (fun _ => fuel) enc) data (.anchoredPlus c) :=
+  QR.SourceTieD1.splitAnchored_src enc c fuel hfuel data
+
+/-- `_optimal_split`'s loop ends by itself with the Model's engine: every fuel ≥ `len(data)` gives the result of fuel
+    `len(data)` (what `Model.optimalDataChunks` passes to `splitRuns`), so no yielded value is an artefact of the fuel -/
+theorem C10_source_optimalSplit_fuel (F enc) (p : sg_Pat) (fuel : Nat) (data : List Nat) (h : data.length ≤ fuel) :
+    splitOut (pyModel F enc) p fuel data = splitOut (pyModel F enc) p data.length data :=
+  QR.SourceTieD1.optimalSplit_fuel F enc p fuel data h
+
+/-- **`util.optimal_data_chunks(data, minimum)`** (the `len(data) <= minimum` test, which pattern is built in which branch -
+    `b"^" + C + b"+$"` vs `C + b"{" + str(minimum).encode("ascii") + b",}"` with `C = rb"\d"` / `b"[" + re.escape(ALPHA_NUM) + b"]"` -,
+    the nested generator loops, the three `QRData(..., mode=..., check_data=False)` calls) raises nothing and yields exactly
+    `Model.optimalDataChunks data minimum`, whatever number `F d ≥ len(d)` of iterations each `while` loop is granted -/
+theorem C10_source_optimalDataChunks (F enc) (hF : ∀ d : List Nat, d.length ≤ F d) (data : Bytes) (minimum : Nat) :
+    sg_optimal_data_chunks (pyModel F enc) data minimum = .ok ((optimalDataChunks data minimum).map segQ) :=
+  QR.SourceTieD1.optimalDataChunks_src F enc hF data minimum
+
+/-- **`QRCode.add_data(data, optimize)`** for a byte string (`isinstance(data, util.QRData)` false, `elif optimize:` by
+    truthiness, `extend(optimal_data_chunks(data, minimum=optimize))` / `append(QRData(data))`, `self.data_cache = None`):
+    `data_list` grows by exactly `Model.addData data optimize`, the cache is reset -/
+theorem C10_source_addData (F enc) (hF : ∀ d : List Nat, d.length ≤ F d) {κ : Type} (dl : List sg_QRData) (cache : Option κ)
+    (data : Bytes) (optimize : Nat) :
+    sg_add_data (pyModel F enc) dl cache (.inr data) optimize =
+      .ok (dl ++ (addData data optimize).map segQ, none) :=
+  QR.SourceTieD1.addData_src F enc hF dl cache data optimize
+
+/-- **`QRCode.add_data(qrdata_object)`**: the `isinstance` branch appends the object itself and resets the cache -/
+theorem C10_source_addData_object (F enc) {κ : Type} (dl : List sg_QRData) (cache : Option κ) (q : sg_QRData) (optimize : Nat) :
+    sg_add_data (pyModel F enc) dl cache (.inl q) optimize = .ok (dl ++ [q], none) :=
+  QR.SourceTieD1.addData_object_src F enc dl cache q optimize
+
+end SourceTieD1
 
 /-- the Python functions this property's model mirrors have, in /repo's current working tree, exactly the normalised
     ASTs the model was written and validated against (fingerprints regenerated by T1 on every run) -/
